@@ -13,6 +13,7 @@ let dispatch (v : t) : t =
   | L (A "c13" :: args) -> Glue_c13.handle args
   | L (A "c07" :: args) -> Glue_c07.handle args
   | L (A "c05" :: args) -> Glue_c05.handle args
+  | L (A "c15" :: args) -> Glue_c15.handle args
   | L (A "c14" :: args) -> Glue_c14.handle args
   | _ -> raise (Parse_error "unknown property")
 
